@@ -321,6 +321,10 @@ func checkC02(r *mon.Run, c *Case, prules []ParsedRule, rq Req, o Outcome) {
 	if len(S) > 1 {
 		key += "|competing"
 	}
+	if tc := tmplref.TokenCount(rq.Path); tc >= 59 {
+		key += fmt.Sprintf("|tokens=%d", tc)
+		r.Count("dispatched_paths_with_59_to_64_tokens", 1)
+	}
 	if strings.Contains(key, "var") || strings.Contains(key, "*") {
 		r.Distinct(key)
 	}
